@@ -228,10 +228,10 @@ ssize_t _GD_AsciiWrite(struct gd_raw_file_ *restrict file,
     case GD_INT32:       WRITE_ASCII(PRId32,  int32_t); break;
     case GD_UINT64:      WRITE_ASCII(PRIu64, uint64_t); break;
     case GD_INT64:       WRITE_ASCII(PRId64,  int64_t); break;
-    case GD_FLOAT32:     WRITE_ASCII(".7g",     float); break;
-    case GD_FLOAT64:     WRITE_ASCII(".16g",   double); break;
-    case GD_COMPLEX64:  WRITE_CASCII(".7g",     float); break;
-    case GD_COMPLEX128: WRITE_CASCII(".16g",   double); break;
+    case GD_FLOAT32:     WRITE_ASCII(".9g",     float); break;
+    case GD_FLOAT64:     WRITE_ASCII(".17g",   double); break;
+    case GD_COMPLEX64:  WRITE_CASCII(".9g",     float); break;
+    case GD_COMPLEX128: WRITE_CASCII(".17g",   double); break;
     default:                            errno = EINVAL; break;
   }
   
